@@ -65,6 +65,7 @@ type WorkerOut struct {
 	KnownHits     map[string]int    `json:"known_hits"`
 	KnownExample  map[string]string `json:"known_example"`
 	OtherProps    map[string]int    `json:"other_property_observations"`
+	OtherExample  map[string]string `json:"other_property_example"`
 	Violations    []ViolationReport `json:"violations"`
 	Samples       []json.RawMessage `json:"samples"`
 	SelfTest      map[string]uint64 `json:"selftest,omitempty"` // "family/seed" -> fingerprint
@@ -114,7 +115,7 @@ func TestWorker(t *testing.T) {
 	if err != nil {
 		t.Fatal(err)
 	}
-	out := &WorkerOut{Outcomes: map[string]int{}, Probes: map[string]int64{}, Faults: map[string]int64{}, KnownHits: map[string]int{}, KnownExample: map[string]string{}, OtherProps: map[string]int{}}
+	out := &WorkerOut{Outcomes: map[string]int{}, Probes: map[string]int64{}, Faults: map[string]int64{}, KnownHits: map[string]int{}, KnownExample: map[string]string{}, OtherProps: map[string]int{}, OtherExample: map[string]string{}}
 	defer func() {
 		if r := recover(); r != nil {
 			out.HarnessError = fmt.Sprintf("%v\n%s", r, debug.Stack())
@@ -214,6 +215,9 @@ func workerExplore(t *testing.T, job *Job, known *KnownFindings, out *WorkerOut,
 		for _, v := range r.Violations {
 			if v.Prop != job.Prop {
 				out.OtherProps[v.Key()]++
+				if out.OtherExample[v.Key()] == "" {
+					out.OtherExample[v.Key()] = fmt.Sprintf("seed %d family %s: %s", seed, fam, trunc(v.Detail, 300))
+				}
 				continue
 			}
 			if v.Known != "" {
